@@ -1,10 +1,13 @@
 import RgVerif.Lemmas.SearcherML
+import RgVerif.Lemmas.SearcherMLTop
+import RgVerif.Lemmas.SearcherMLInv
 /-
 C13 — multi-line search reports exactly the lines covered by the pattern's matches.
 
 Model: `Model/Glue.lean` (`multiLine` = `MultiLine::run`, function by function).  Spec: `Spec/MultiLine.lean`
 (`mlSpec`: successive matches over the whole input → `locate` → merge touching ranges → blocks; inversion =
-the other lines; context by the grep model).  Proofs: `Lemmas/SearcherML.lean`.
+the other lines; context by the grep model).  Proofs: `Lemmas/SearcherML*.lean` (`SearcherMLTop.lean` for the
+theorem with context).
 -/
 namespace RgVerif.Props.C13
 open RgVerif RgVerif.Matcher RgVerif.Lines RgVerif.Searcher RgVerif.GrepSpec RgVerif.MLSpec
@@ -24,6 +27,71 @@ theorem C13_nocontext (cfg : Config) (hc : PlainCfg cfg) (m : MatcherI) (inp : B
         Event.begin :: (codeBlocks cfg m inp).map (blockEv inp) ++ [Event.finish bc none] ∧
       (multiLine cfg m allCont inp).result = .ok () :=
   multiLine_plain hc m inp
+
+/-- **Dropping empty blocks = stopping at the first empty block.** The specification filters the merged line
+ranges (`mlBlocks`), the code stops as soon as it is about to sink an empty one (`codeBlocks`, `takeWhile`); for a
+matcher whose spans lie inside the input at or after the search position only the last merged range can be empty
+(it comes from a match behind the last terminator), so the two lists are equal. -/
+theorem C13_blocks_filter_takeWhile (cfg : Config) (m : MatcherI) (inp : Bytes) (hs : SpanSane m inp) :
+    mlBlocks cfg m inp = codeBlocks cfg m inp :=
+  mlBlocks_eq_codeBlocks cfg hs
+
+/-- **C13 with context, passthru and line numbers** (no inversion, binary detection off), for every input and
+every matcher whose spans lie inside the input at or after the search position: the sink is told exactly the
+multi-line model `mlSpec` — the grep model (order, context windows, separators, line numbers, byte offsets, byte
+count) for the selection "line covered by a block", every block delivered as one `matched` callback that carries
+the line number and offset of its first line. (`passthru` excludes after-context, as `SearcherBuilder::passthru`
+enforces.) The proof keeps a block-level invariant: the real log is `coalesce` of a shadow log in which the block
+is delivered line by line, and the shadow log is the grep model's log for the lines decided so far. -/
+theorem C13_context (cfg : Config) (m : MatcherI) (inp : Bytes) (hinv : cfg.invertMatch = false)
+    (hbin : cfg.binary = .none) (hpt : cfg.passthru = true → cfg.afterContext = 0) (hs : SpanSane m inp) :
+    (multiLine cfg m allCont inp).events = mlSpec cfg m inp ∧ (multiLine cfg m allCont inp).result = .ok () :=
+  multiLine_ctx cfg m inp hinv hbin hpt hs
+
+/-- **C13 with inversion** (any context, passthru, line numbers; binary detection off), same matcher contract: the
+sink is told the grep model for the lines that lie outside the line range of every match *the inverted scan finds*
+(`mlSpecInv`; the scan resumes at the end of the last line of a match). This is the complement of the covered
+lines — `mlSpec` — exactly when the scan misses no match (`invCoverSame`); finding F19 is a case where it does. -/
+theorem C13_inverted (cfg : Config) (m : MatcherI) (inp : Bytes) (hinv : cfg.invertMatch = true)
+    (hbin : cfg.binary = .none) (hpt : cfg.passthru = true → cfg.afterContext = 0) (hs : SpanSane m inp) :
+    (multiLine cfg m allCont inp).events = mlSpecInv cfg m inp ∧ (multiLine cfg m allCont inp).result = .ok () :=
+  multiLine_inverted cfg m inp hinv hbin hpt hs
+
+theorem mlSpecInv_eq_mlSpec (cfg : Config) (m : MatcherI) (inp : Bytes) (hinv : cfg.invertMatch = true)
+    (h : invCoverSame cfg m inp = true) : mlSpecInv cfg m inp = mlSpec cfg m inp := by
+  have h' := eq_of_beq h
+  cases cfg
+  dsimp only at hinv
+  subst hinv
+  unfold mlSpecInv mlSpec
+  dsimp only at h' ⊢
+  rw [h']
+  rfl
+
+/-- the decidable guard of `C13_partial`: binary detection off, passthru without after-context, a matcher table with
+sane spans, and — with inversion — the inverted scan selects the lines the specification selects -/
+def guard (cfg : Config) (m : MatcherI) (inp : Bytes) : Bool :=
+  decide (cfg.binary = .none) && (!cfg.passthru || cfg.afterContext == 0) && spanSaneB m inp &&
+    (!cfg.invertMatch || invCoverSame cfg m inp)
+
+/-- **C13 under the guard**: the searcher delivers the multi-line model. -/
+theorem C13_partial (cfg : Config) (m : MatcherI) (inp : Bytes) (hg : guard cfg m inp = true) :
+    (multiLine cfg m allCont inp).events = mlSpec cfg m inp := by
+  unfold guard at hg
+  simp only [Bool.and_eq_true, Bool.not_eq_true', decide_eq_true_eq, Bool.or_eq_true, beq_iff_eq] at hg
+  obtain ⟨⟨⟨h2, h3⟩, h4⟩, h5⟩ := hg
+  have hpt : cfg.passthru = true → cfg.afterContext = 0 := by
+    intro hp
+    rcases h3 with h | h
+    · rw [hp] at h; exact Bool.noConfusion h
+    · exact h
+  cases hinv : cfg.invertMatch with
+  | false => exact (C13_context cfg m inp hinv h2 hpt (spanSaneB_sound h4)).1
+  | true =>
+    rcases h5 with h | h
+    · rw [hinv] at h; exact Bool.noConfusion h
+    · rw [(C13_inverted cfg m inp hinv h2 hpt (spanSaneB_sound h4)).1]
+      exact mlSpecInv_eq_mlSpec cfg m inp hinv h
 
 /-- the full statement: for every configuration the multi-line searcher delivers the multi-line model -/
 def C13_full : Prop :=
@@ -65,5 +133,42 @@ example : codeBlocks cfgPlain mAnl inp4 = [⟨2, 6⟩] := by decide
 example : (multiLine cfgPlain mAnl allCont inp4).events =
     [.begin, .matched none 2 [97, 10, 97, 10], .finish 8 none] := by decide
 example : mlSpec cfgPlain mAnl inp4 = [.begin, .matched none 2 [97, 10, 97, 10], .finish 8 none] := by decide
+
+/-! ### Non-vacuity of `C13_context` / `C13_partial`: context 1/1 and line numbers around a two-line block
+(`b\nc` on `a\nb\nc\nd\ne\nf\n`, then `f` alone — the break between the two groups, the block numbered by its
+first line) -/
+
+def cfgCtx : Config := { multiLine := true, beforeContext := 1, afterContext := 1, lineNumber := true }
+def mBC : MatcherI :=
+  MatcherI.ofFindAt fun _ p => if p ≤ 2 then some ⟨2, 5⟩ else if p ≤ 10 then some ⟨10, 11⟩ else none
+def inp6 : Bytes := [97, 10, 98, 10, 99, 10, 100, 10, 101, 10, 102, 10]
+
+example : guard cfgCtx mBC inp6 = true := by decide
+example : mlSpec cfgCtx mBC inp6 =
+    [.begin, .context .before (some 1) 0 [97, 10], .matched (some 2) 2 [98, 10, 99, 10],
+     .context .after (some 4) 6 [100, 10], .context .before (some 5) 8 [101, 10], .matched (some 6) 10 [102, 10],
+     .finish 12 none] := by decide
+example : (multiLine cfgCtx mBC allCont inp6).events = mlSpec cfgCtx mBC inp6 :=
+  C13_partial cfgCtx mBC inp6 (by decide)
+
+/-! ### Non-vacuity with inversion: `b\nc` on six lines, `-v -A1`: lines 1, 4–6 selected, line 2 is not context
+(it precedes the first selected line after it by more than the window: no before-context configured) -/
+
+def cfgInvA : Config := { multiLine := true, invertMatch := true, afterContext := 1, lineNumber := true }
+def mBC1 : MatcherI := MatcherI.ofFindAt fun _ p => if p ≤ 2 then some ⟨2, 5⟩ else none
+
+example : guard cfgInvA mBC1 inp6 = true := by decide
+example : mlSpec cfgInvA mBC1 inp6 =
+    [.begin, .matched (some 1) 0 [97, 10], .context .after (some 2) 2 [98, 10], .contextBreak,
+     .matched (some 4) 6 [100, 10], .matched (some 5) 8 [101, 10], .matched (some 6) 10 [102, 10],
+     .finish 12 none] := by decide
+example : (multiLine cfgInvA mBC1 allCont inp6).events = mlSpec cfgInvA mBC1 inp6 :=
+  C13_partial cfgInvA mBC1 inp6 (by decide)
+
+/-- on the F19 witness the guard is false (the inverted scan misses the second match), and the searcher delivers
+`mlSpecInv`, not `mlSpec` -/
+example : guard cfgInv mF19 inpF19 = false := by decide
+example : (multiLine cfgInv mF19 allCont inpF19).events = mlSpecInv cfgInv mF19 inpF19 :=
+  (C13_inverted cfgInv mF19 inpF19 rfl rfl (fun h => by cases h) (spanSaneB_sound (by decide))).1
 
 end RgVerif.Props.C13
